@@ -244,8 +244,11 @@ def _run_plan(spec: dict, plan, scratch: str, timeout: float, confirm_hangs: boo
     return out
 
 
-def _child_plan(conn, spec, plan, scratch, timeout, confirm_hangs, stop_on_hang):
+def _child_plan(conn, spec, plan, scratch, timeout, confirm_hangs, stop_on_hang, dump_path=None, dump_after=None):
     try:
+        if dump_path:
+            import faulthandler
+            faulthandler.dump_traceback_later(dump_after, file=open(dump_path, "w"), exit=False)   # where a harness hang sits
         conn.send(_run_plan(spec, plan, scratch, timeout, confirm_hangs, stop_on_hang))
     except BaseException as e:  # noqa: BLE001
         conn.send([{"seed": plan[0][0] if plan else 0, "shuffle": False,
@@ -268,16 +271,23 @@ def run_schedules(spec: dict, seeds: list[int], scratch: str, timeout: float = 3
         return []
     ctx = mp.get_context("fork")
     parent, child = ctx.Pipe(duplex=False)
-    proc = ctx.Process(target=_child_plan, args=(child, spec, plan, scratch, timeout, confirm_hangs, stop_on_hang), daemon=True)
+    hard = len(plan) * (timeout * 4 + 20) + 60
+    dump_path = os.path.join(scratch, f"stuck-{os.getpid()}-{id(plan)}.txt")
+    proc = ctx.Process(target=_child_plan, args=(child, spec, plan, scratch, timeout, confirm_hangs, stop_on_hang, dump_path, hard - 20),
+                       daemon=True)
     proc.start()
     child.close()
-    hard = len(plan) * (timeout * 4 + 20) + 60
     try:
         if parent.poll(hard):
             out = parent.recv()
         else:
+            where = ""
+            try:
+                where = " | stacks: " + open(dump_path).read()[-1200:].replace("\n", " / ")
+            except OSError:
+                pass
             out = [{"seed": sd, "shuffle": sh, "outcome": {"kind": "harness-error",
-                                                           "detail": f"the runs of this workflow did not come back within {hard:.0f}s (killed)"}}
+                                                           "detail": f"the runs of this workflow did not come back within {hard:.0f}s (killed){where}"}}
                    for sd, sh in plan]
     except (EOFError, OSError) as e:
         out = [{"seed": sd, "shuffle": sh, "outcome": {"kind": "harness-error", "detail": f"worker died: {e!r}"}} for sd, sh in plan]
@@ -286,6 +296,10 @@ def run_schedules(spec: dict, seeds: list[int], scratch: str, timeout: float = 3
             proc.kill()
         proc.join(5)
         parent.close()
+        try:
+            os.unlink(dump_path)
+        except OSError:
+            pass
     return out
 
 
